@@ -337,7 +337,19 @@ fn link_slice(base: &[u8], l: &Option<LinkSlice>) -> String {
                 sll_fields(&h),
                 win(base, s.sender_address()),
                 win(base, pl.payload),
-                if pl.protocol_type != s.protocol_type() || h.packet_type != s.packet_type() || h.arp_hrd_type != s.arp_hardware_type() || win(base, s.header_slice()) != format!("({},16)", off(base, s.slice())) {
+                if pl.protocol_type != s.protocol_type()
+                    || h.packet_type != s.packet_type()
+                    || h.arp_hrd_type != s.arp_hardware_type()
+                    || win(base, s.header_slice()) != format!("({},16)", off(base, s.slice()))
+                    || h.sender_address_valid_length != s.sender_address_valid_length()
+                    || h.sender_address != s.sender_address_full()
+                    || s.sender_address_full()[..] != s.slice()[6..14]
+                    || s.sender_address_valid_length() != u16::from_be_bytes([s.slice()[4], s.slice()[5]])
+                    || s.sender_address() != &s.slice()[6..6 + usize::from(s.sender_address_valid_length()).min(8)]
+                    || s.payload_slice() != pl.payload
+                    || LinuxSllHeaderSlice::from_slice(s.slice()).map(|x| (x.to_header(), x.slice().len(), x.sender_address_valid_length(), x.sender_address_full(), x.sender_address().to_vec(), x.packet_type(), x.arp_hardware_type(), x.protocol_type())).ok()
+                        != Some((h.clone(), 16, s.sender_address_valid_length(), s.sender_address_full(), s.sender_address().to_vec(), s.packet_type(), s.arp_hardware_type(), s.protocol_type()))
+                {
                     "!accessor-mismatch"
                 } else {
                     ""
@@ -380,7 +392,19 @@ fn macsec_hdr_check(h: &MacsecHeaderSlice) -> &'static str {
         && t.sci == h.sci()
         && h.header_len() == h.slice().len()
         && h.sci_present() == h.sci().is_some()
-        && h.is_unmodified() == h.next_ether_type().is_some();
+        && h.is_unmodified() == h.next_ether_type().is_some()
+        && h.tci_an_raw() == h.slice()[0]
+        && h.encrypted() == (h.slice()[0] & 0b1000 != 0)
+        && h.userdata_changed() == (h.slice()[0] & 0b100 != 0)
+        && h.is_unmodified() == !(h.encrypted() || h.userdata_changed())
+        && h.sci_present() == (h.slice()[0] & 0b10_0000 != 0)
+        && (t.ptype
+            == match (h.encrypted(), h.userdata_changed()) {
+                (true, true) => MacsecPType::Encrypted,
+                (true, false) => MacsecPType::EncryptedUnmodified,
+                (false, true) => MacsecPType::Modified,
+                (false, false) => MacsecPType::Unmodified(h.next_ether_type().unwrap_or(EtherType(0))),
+            });
     if ok {
         ""
     } else {
